@@ -24,6 +24,13 @@ def box(name, N):
         return [1e-3 * (i + 1) for i in range(N)], [7.0 + i for i in range(N)]
     if name == "B3":
         return [-1e6] * N, [-1e6 + 3.0] * N
+    if name == "B4":      # a unit box ten orders of magnitude from the origin (relative width 1e-10)
+        return [1e10] * N, [1e10 + 1.0] * N
+    if name == "Z":       # integer-typed bounds with an odd sum: Python ints, as a user would write them
+        return [0] * N, [3] * N
+    if name.startswith("I:"):   # "I:m" - the box whose 2^m cells per axis are centred at the integers 0..2^m-1
+        mm = int(name[2:])
+        return [-0.5] * N, [2.0 ** mm - 0.5] * N
     if name.startswith("L:"):      # "L:lo:hi" - the same interval on every axis (lattice of decimal end points)
         _, a, b = name.split(":")
         return [float(a)] * N, [float(b)] * N
